@@ -34,3 +34,19 @@ def _f5(case, failure):
     raised it, so a ';' inside a later parenthesis ends the statement.  The check tags such failures ':hazard' only when
     the statement has an END before / inside a parenthesis body that contains ';'."""
     return failure.clause in ('count', 'extent', 'cut-inside-lexeme') and failure.sig.endswith(':hazard')
+
+
+@classifier('f7_truncate_quote_pair')
+def _f7(case, failure):
+    """F7: truncate_strings cuts through a '' pair, or takes the value[:2]=="''" branch for a literal that starts with
+    an escaped quote: the result is not one well-formed literal.  The check tags a failure ':trunc-hazard' only when
+    the diverging token is such a literal (relex) or the script contains one (second application)."""
+    return (failure.clause, failure.sig) in {('relex', 'literal:trunc-hazard'), ('idempotent', 'trunc-hazard')}
+
+
+@classifier('f19_strip_comments_leading_blanks')
+def _f19(case, failure):
+    """F19: strip_comments removes a comment that starts a statement but leaves the blanks that followed it, so the
+    output has blanks after the previous statement's ';' which a second application (where they belong to the
+    previous statement) strips: not a fixed point, whitespace only."""
+    return (failure.clause, failure.sig) == ('idempotent', 'blanks-after-semicolon') and bool((case.get('opts') or {}).get('strip_comments'))
